@@ -201,13 +201,13 @@ Definition step (s : st) (l : label) : option st :=
           else Some (mk_st (emit_zero s) (units s) (update k (fun _ => 0) (cs s)) (gs s) (hs s) PCounters
                            (remove_key k (todo s)) (k :: seen s)
                            (if emit_zero s || negb (c =? 0) then acc_c s ++ [(k, c)] else acc_c s)
-                           (acc_g s) (acc_h s) None (out s))
+                           (acc_g s) (acc_h s) (drain s) (out s))
       | _, _ => None
       end
   | RGauges =>
       match pc s, todo s with
       | PCounters, [] => Some (mk_st (emit_zero s) (units s) (cs s) (gs s) (hs s) PGauges (map fst (gs s)) []
-                                     (sort_keys (acc_c s)) [] [] None (out s))
+                                     (sort_keys (acc_c s)) (acc_g s) (acc_h s) (drain s) (out s))
       | _, _ => None
       end
   | RGauge k =>
@@ -215,13 +215,13 @@ Definition step (s : st) (l : label) : option st :=
       | PGauges, Some g =>
           if mem k (seen s) then None
           else Some (mk_st (emit_zero s) (units s) (cs s) (gs s) (hs s) PGauges (remove_key k (todo s)) (k :: seen s)
-                           (acc_c s) (acc_g s ++ [(k, g)]) (acc_h s) None (out s))
+                           (acc_c s) (acc_g s ++ [(k, g)]) (acc_h s) (drain s) (out s))
       | _, _ => None
       end
   | RHists =>
       match pc s, todo s with
       | PGauges, [] => Some (mk_st (emit_zero s) (units s) (cs s) (gs s) (hs s) PHists (map fst (hs s)) []
-                                   (acc_c s) (sort_keys (acc_g s)) [] None (out s))
+                                   (acc_c s) (sort_keys (acc_g s)) (acc_h s) (drain s) (out s))
       | _, _ => None
       end
   | RHistStart k =>
